@@ -81,4 +81,20 @@ CHECKS = {
                                "check for re-declarations, and probe parses of every spelling at every state; ASan watches the group's "
                                "back-reference after MOVE",
                         ["BFS de-duplication assumes behaviour depends only on the reference state and the moved flag (declaration order only affects the usage text)"]),
+    "C06": dict(src=["checks/C06.cpp"], nitro=[], variants=PLAIN_ASAN, runs=both, deadline_s={"quick": 300, "thorough": 1500},
+                assumptions=["states are keyed by capacity, size and the raw contents of all capacity slots read through data(); the induction "
+                             "'every finite operation sequence' needs behaviour to depend only on that key",
+                             "copy/move assignment is explored over pairs of abstract-state representatives (one concrete representative per visible sequence)",
+                             "positioned range insert and emplace beyond the end: only safety and invariants are judged; moved-from containers: "
+                             "valid-but-unspecified (size <= capacity, usable, accounted)",
+                             "after an injected element exception only the basic guarantee is judged (no leak, no double destroy, size <= capacity, no unfilled slot visible)",
+                             "memory safety as far as ASan/UBSan can see (heap red zones); LeakSanitizer is replaced by the exact element live-set"],
+                explanation="explicit-state BFS to a fixpoint on the real fixed_vector for a copyable and a move-only instrumented element type, "
+                            "+ fault enumeration at every (state, operation, throw position)"),
+    "C07": dict(src=["checks/C07.cpp"], nitro=[], variants=PLAIN_ASAN, runs=both, deadline_s={"quick": 300, "thorough": 1500},
+                assumptions=["reference = std::vector bounded by the capacity; states keyed as in C06",
+                             "after whole-container assignment the capacity may be the source's or (if the contents fit) the old one",
+                             "positioned range insert: contents not judged (not part of the statement)"],
+                explanation="explicit-state BFS to a fixpoint on the real fixed_vector against a bounded std::vector, full observation "
+                            "(size, [], at, forward/reverse iteration, data, front/back) after every transition"),
 }
